@@ -484,6 +484,9 @@ def e2e_judge(prog, stream, results, window):
         else:
             seps = [b'\n'] if k == 'line' else [bytes(op[1])] if k == 'until1' else [bytes(s) for s in op[1]]
             if k != 'line' and not cs.infix_free(seps):
+                why = cs.weak_until_check(rem, seps, res)
+                if why:
+                    return why
                 pos += len(r)
                 continue
             end = cs.first_match_end(rem, seps)
@@ -546,12 +549,15 @@ def new_id(acts):
     return cid
 
 
-async def case_read(conn, window, acts, prog):
-    """client runs the read program on stdout of a process whose server side follows acts"""
+async def case_read(conn, window, acts, prog, late=False):
+    """client runs the read program on stdout of a process whose server side follows acts; late = the
+    client starts reading only after the output had time to fill the window and queue up in the channel"""
     cid = new_id(acts)
     proc = await conn.create_process(cid, encoding=None, window=window)
     results = []
     hung = False
+    if late:
+        await asyncio.sleep(0.03)
     try:
         await asyncio.wait_for(_read_prog(proc.stdout, prog, results), 60)
     except asyncio.TimeoutError:
@@ -680,9 +686,12 @@ async def e2e_all(ctx):
         n = 2500 if ctx.tier == 'thorough' else 250
         for i in range(n):
             window, data, acts, prog = gen_e2e_read_case(rng, big=(i % 3 == 0))
-            results, hung = await case_read(conn, window, acts, prog)
+            late = (i % 4 == 1)
+            if late and len(data) > window:
+                ctx.count('e2e_read.started_after_window_filled')
+            results, hung = await case_read(conn, window, acts, prog, late)
             if hung:        # wall-clock guard fired: report only if it reproduces
-                results, hung = await case_read(conn, window, acts, prog)
+                results, hung = await case_read(conn, window, acts, prog, late)
                 if not hung:
                     ctx.count('e2e.nonreproducing_timeout', group='oracle')
             ctx.note_case(('e2e-read', window, data, repr(prog)), nontrivial=len(data) > 0)
@@ -693,7 +702,7 @@ async def e2e_all(ctx):
             if why:
                 ctx.failing_input(f'reading a process over loopback: {why} [window {window}, program {prog!r}]',
                                   {'kind': 'e2e_read', 'class': cls, 'window': window, 'data': list(data),
-                                   'acts': js_acts(acts), 'prog': js_prog(prog)})
+                                   'acts': js_acts(acts), 'prog': js_prog(prog), 'late': late})
             if hung:
                 HANGS[0] += 1
                 if HANGS[0] >= 3:
@@ -869,6 +878,7 @@ async def e2e_all(ctx):
         ctx.broke('correspondence:wait', f'{len(bad)} of {len(cases_wait)} differ; first: {cases_wait[bad[0]][:1500]}')
     d = ctx.cov['distribution']
     for key, need in (('e2e_read.stream_larger_than_window', 10), ('e2e_read.compared_with_model', 20),
+                      ('e2e_read.started_after_window_filled', 3),
                       ('e2e_exit.output_larger_than_window', 5), ('e2e_exit.status_sent_before_data', 5),
                       ('e2e_stdin.judged', 5)):
         if d.get(key, 0) < need:
@@ -1216,7 +1226,7 @@ def replay(rp):
                 if kind == 'e2e_read':
                     prog = unjs_prog(rp['prog'])
                     acts = unjs_acts(rp['acts'])
-                    results, hung = await case_read(conn, rp['window'], acts, prog)
+                    results, hung = await case_read(conn, rp['window'], acts, prog, rp.get('late', False))
                     cls, why = judge_read(prog, bytes(rp['data']), results, hung, rp['window'])
                     print('results:', results, '->', why)
                     return 1 if why else 0
